@@ -571,7 +571,7 @@ def r03_b(ctx):
     kw = fd.node.args.kwarg.arg if fd.node.args.kwarg else None
     rets = [n for n in ast.walk(fd.node) if isinstance(n, ast.Return)]
     call = 'self.find_all(%s, **%s)' % (ps[1], kw)
-    ok = len(rets) == 1 and norm(rets[0].value) in ('len(list(%s))' % call, 'len(%s)' % call)
+    ok = len(rets) == 1 and _counted_sequence(fd.node, rets[0]) == call
     rr.ob(ok, {'count': norm(rets[0].value) if rets else None})
     if not ok:
         rr.fail(Finding('R03.b', 'data', fd.qual, rets[0] if rets else 'count', 'count is not the length of find_all for the '
@@ -591,6 +591,53 @@ def r03_b(ctx):
         rr.fail(Finding('R03.b', 'data', fd.qual, rets[0] if rets else '__getattr__', 'attribute access on a node is not '
                         'find() of that name', line=fd.node.lineno))
     return rr
+
+
+def _counted_sequence(fnode, ret):
+    """the (normalised) expression whose number of elements the return statement returns, or None:
+    len(S), len(list(S)) / tuple / a copying comprehension, sum(1 for _ in S), a counter incremented once per element"""
+    def identity_comp(e):
+        # [x for x in S] without a condition
+        if isinstance(e, (ast.ListComp, ast.GeneratorExp)) and len(e.generators) == 1 and not e.generators[0].ifs \
+                and isinstance(e.elt, ast.Name) and isinstance(e.generators[0].target, ast.Name) \
+                and e.elt.id == e.generators[0].target.id:
+            return e.generators[0].iter
+        return None
+
+    def unwrap(e):
+        while True:
+            if isinstance(e, ast.Call) and isinstance(e.func, ast.Name) and e.func.id in ('list', 'tuple') and len(e.args) == 1 \
+                    and not e.keywords:
+                e = e.args[0]
+                continue
+            inner = identity_comp(e)
+            if inner is not None:
+                e = inner
+                continue
+            return e
+    v = ret.value
+    if v is None:
+        return None
+    if isinstance(v, ast.Call) and isinstance(v.func, ast.Name) and len(v.args) == 1 and not v.keywords:
+        if v.func.id == 'len':
+            return norm(unwrap(v.args[0]))
+        if v.func.id == 'sum':
+            g = v.args[0]
+            if isinstance(g, (ast.ListComp, ast.GeneratorExp)) and len(g.generators) == 1 and not g.generators[0].ifs \
+                    and isinstance(g.elt, ast.Constant) and g.elt.value == 1 and type(g.elt.value) is int:
+                return norm(unwrap(g.generators[0].iter))
+        return None
+    if isinstance(v, ast.Name):
+        body = strip_doc(fnode.body)
+        if len(body) == 3 and body[2] is ret and isinstance(body[0], ast.Assign) and len(body[0].targets) == 1 \
+                and norm(body[0].targets[0]) == v.id and isinstance(body[0].value, ast.Constant) and body[0].value.value == 0 \
+                and type(body[0].value.value) is int and isinstance(body[1], ast.For) and not body[1].orelse \
+                and len(body[1].body) == 1 and isinstance(body[1].body[0], ast.AugAssign) \
+                and isinstance(body[1].body[0].op, ast.Add) and norm(body[1].body[0].target) == v.id \
+                and isinstance(body[1].body[0].value, ast.Constant) and body[1].body[0].value.value == 1 \
+                and type(body[1].body[0].value.value) is int and v.id not in norm(body[1].target):
+            return norm(unwrap(body[1].iter))
+    return None
 
 
 def r03_d(ctx):
@@ -673,6 +720,64 @@ def r03_c(ctx):
     if not ok:
         rr.fail(Finding('R03.c', 'data', fd.qual, '__match__ of expressions', 'the match predicate of expressions does not '
                         'compare the queried name with the expression\'s current name attribute', line=fd.node.lineno))
+    # on every path that can answer "match", the queried name has been brought to bear on the node: stored as the `name`
+    # criterion, compared with something read from the node, or is the node's text.  (A path that skips all of this
+    # -- `if not name: pass` -- makes an empty name or an empty list of names match every node.)
+    from .model import resolve_locals as _rl3
+
+    def _mentions(e, nm):
+        return any(isinstance(x, ast.Name) and x.id == nm for x in ast.walk(e))
+
+    def _ties_name_to_node(e):
+        e = _rl3(fd.node, e)
+        for c in ast.walk(e):
+            if isinstance(c, ast.Compare) and _mentions(c, name_p) and _mentions(c, 'self'):
+                return True
+        return False
+
+    def _paths(stmts, tied):
+        """-> list of (tied, description) for paths that leave the function with a possibly-true answer, plus the
+        paths that fall through: (tied, None)"""
+        out = []
+        live = [(tied, '')]
+        for st_ in stmts:
+            if not live:
+                break
+            nxt = []
+            for tied_, desc in live:
+                if isinstance(st_, ast.If):
+                    t2 = tied_ or _ties_name_to_node(st_.test)
+                    for branch, tag in ((st_.body, 'T'), (st_.orelse, 'F')):
+                        for r in _paths(branch, t2):
+                            d2 = (desc + ' ' + norm(st_.test)[:40] + '=' + tag + ' ' + (r[1] or '')).strip()
+                            if r[2]:
+                                out.append((r[0], d2, True))
+                            else:
+                                nxt.append((r[0], d2))
+                elif isinstance(st_, ast.Return):
+                    v = st_.value
+                    falsy = v is None or (isinstance(v, ast.Constant) and not v.value)
+                    if not falsy:
+                        out.append((tied_ or _ties_name_to_node(v), desc, True))
+                elif isinstance(st_, ast.Raise):
+                    pass
+                else:
+                    t2 = tied_
+                    for n_ in ast.walk(st_):
+                        if isinstance(n_, ast.Assign) and any(
+                                isinstance(t_, ast.Subscript) and norm(t_.value) == attrs_p and isinstance(t_.slice, ast.Constant)
+                                and t_.slice.value == 'name' for t_ in n_.targets) and norm(n_.value) == name_p:
+                            t2 = True
+                    nxt.append((t2, desc))
+            live = nxt
+        return out + [(t_, d_, False) for t_, d_ in live]
+    loose = [p_ for p_ in _paths(strip_doc(body.body), False) if p_[2] and not p_[0]]
+    rr.ob(not loose, {'every_matching_path_consults_the_name': not loose})
+    for p_ in loose[:1]:
+        rr.fail(Finding('R03.c', 'data', fd.qual, 'match without consulting the name [%s]' % p_[1][:80],
+                        'on the path [%s] the match predicate answers without having compared the queried name with the '
+                        'node: such a query (an empty name, an empty list of names) matches every node' % p_[1][:160],
+                        line=fd.node.lineno))
     full = any(isinstance(n, ast.Return) and norm(n.value) in ('str(self) == %s' % name_p, '%s == str(self)' % name_p) for n in ast.walk(body))
     rr.ob(full, {'full_expression_query': 'str(self) == query'})
     if not full:
@@ -1584,6 +1689,27 @@ def r14_b(ctx):
     if not ok:
         rr.fail(Finding('R14.b', 'data', fd.qual, 'string setter', 'assigning node.string does not replace the text of the '
                         'single argument (command) / the single text content (environment)', line=fd.node.lineno))
+    # "text-only environment" is judged on the view the user sees (`contents`: whitespace-only pieces such as the line
+    # break after \begin{..} do not count), in the getter and in the setter alike
+    from .model import resolve_locals as _rl14
+    for role in ('getter', 'setter'):
+        fdv = _m(node, 'string', role)
+        for n in ast.walk(fdv.node):
+            if isinstance(n, ast.Call) and isinstance(n.func, ast.Name) and n.func.id == 'len' and len(n.args) == 1:
+                par = getattr(n, '_parent', None)
+                if not (isinstance(par, ast.Compare) and any(isinstance(c_, ast.Constant) and c_.value == 1
+                                                            for c_ in [par.left] + par.comparators)):
+                    continue
+                what = norm(_rl14(fdv.node, n.args[0]))
+                if 'args' in what:
+                    continue        # the single-argument test of commands
+                raw = '_contents' in what or what.endswith('.all') or '.all)' in what
+                rr.ob(not raw, {'string_%s_counts' % role: what[:60]})
+                if raw:
+                    rr.fail(Finding('R14.b', 'data', fdv.qual, n, 'the %s of node.string counts the pieces of the raw content '
+                                    'list (%s) to decide "only text content": an environment whose text is preceded by a '
+                                    'whitespace-only piece (a blank line after \\begin{..}) is refused although its '
+                                    'contents are one text' % (role, what[:50]), line=n.lineno))
     fd = _m(texexpr, 'contents', 'setter')
     p = fd.params()[1]
     ok = any(isinstance(n, ast.Assign) and norm(n.targets[0]) == 'self._contents' for n in ast.walk(fd.node))
